@@ -11,6 +11,6 @@ cd /verif
 VERIF_REPO="$wt" VERIF_EVIDENCE_DIR="$out" VERIF_REPLAY_DIR="$out" ./check $pid > "$out/log" 2>&1
 rc=$?
 git -C /repo worktree remove --force "$wt"; git -C /repo worktree prune
-grep -E "^VIOLATION|Error|  File|^KNOWN|^INCONCLUSIVE|^\[C" "$out/log" | cut -c1-400 | head -5
+grep -E "^VIOLATION|Error|  File|^KNOWN|^INCONCLUSIVE|^\[C" "$out/log" | cut -c1-400 | head -12
 echo "exit=$rc"
 rm -rf "$out"
